@@ -1,5 +1,6 @@
 import Revm.Model.GasCalc
 import Revm.Spec.GasCalc
+import Revm.Proofs.Arith
 /-! Helper lemmas and proofs for C14 (core Lean only). -/
 set_option linter.unusedSimpArgs false
 set_option linter.unusedVariables false
@@ -164,26 +165,9 @@ theorem extcodecopyCost_iff (f : Fork) (len : Nat) (c : Bool) (v : Nat) (h : len
 
 theorem expCost_eq (f : Fork) (p : Nat) (hp : p < W) :
     expCost f.id p = some (Spec.GasCalc.expCost f p) := by
-  have hW := W_val
-  have hU := U64_val
-  unfold expCost Spec.GasCalc.expCost Model.Arith.expCost Spec.Arith.expCost Spec.Arith.byteLen
-    Model.Arith.log2floor
+  unfold expCost Spec.GasCalc.expCost
   rw [en_spurious]
-  by_cases h0 : p = 0
-  · simp only [h0, if_true, Nat.mul_zero, Nat.add_zero]
-  · simp only [h0, if_false]
-    have hl : p.log2 < 256 := (Nat.log2_lt h0).2 (by rw [hW] at hp; simpa using hp)
-    generalize p.log2 = l at hl
-    unfold U256.checkedMul U256.checkedAdd
-    cases hasEIP160 f
-    · have h1 : 10 * (l / 8 + 1) < W := by omega
-      have h2 : 10 + 10 * (l / 8 + 1) < W := by omega
-      have h3 : 10 + 10 * (l / 8 + 1) < U64 := by omega
-      simp only [Bool.false_eq_true, if_false, h1, h2, h3, if_true]
-    · have h1 : 50 * (l / 8 + 1) < W := by omega
-      have h2 : 10 + 50 * (l / 8 + 1) < W := by omega
-      have h3 : 10 + 50 * (l / 8 + 1) < U64 := by omega
-      simp only [if_true, h1, h2, h3]
+  exact Proofs.Arith.expCost_eq (hasEIP160 f) p hp
 
 
 /-! ### SSTORE -/
@@ -325,15 +309,26 @@ theorem sq_ge (w : Nat) (h : 2^32 ≤ w) : 2^64 ≤ w * w := by
   have := Nat.mul_le_mul h h
   simpa using this
 
+/-- `memory_gas` is the Yellow Paper C_mem clamped to `u64::MAX`, for every word count -/
+theorem memoryGas_full (w : Nat) : memoryGas w = min (memCost w) (U64 - 1) := by
+  unfold memoryGas MEMORY memCost
+  generalize w * w / 512 = q
+  simp only []
+  split <;> omega
+
+theorem memoryGas_exact (w : Nat) (h : memCost w < U64) : memoryGas w = memCost w := by
+  rw [memoryGas_full]; omega
+
+theorem memoryGas_sat (w : Nat) (h : U64 ≤ memCost w) : memoryGas w = U64 - 1 := by
+  rw [memoryGas_full]; omega
+
 theorem memoryGas_eq (w : Nat) (h : w < 2^32) : memoryGas w = memCost w := by
   have hU := U64_val
   have hq := sq_lt w h
-  unfold memoryGas saturatingAdd saturatingMul MEMORY memCost
+  apply memoryGas_exact
+  unfold memCost
   generalize w * w = q at hq ⊢
-  have h1 : 3 * w < U64 := by omega
-  have h2 : q < U64 := by omega
-  have h3 : 3 * w + q / 512 < U64 := by omega
-  simp only [h1, h2, h3, if_true]
+  omega
 
 theorem memCost_lt (w : Nat) (h : w < 2^32) : memCost w < 2^56 := by
   have hq := sq_lt w h
@@ -347,38 +342,24 @@ theorem memCost_mono (a b : Nat) (h : a ≤ b) : memCost a ≤ memCost b := by
   have h2 : a * a / 512 ≤ b * b / 512 := Nat.div_le_div_right h1
   omega
 
-/-- from 2^32 words on, the squared term saturates and the result is strictly below the true cost -/
-theorem memoryGas_under (w : Nat) (h : 2^32 ≤ w) (hw : w < U64) : memoryGas w < memCost w := by
-  have hU := U64_val
-  have hq := sq_ge w h
-  unfold memoryGas saturatingAdd saturatingMul MEMORY memCost
-  generalize w * w = q at hq ⊢
-  have h2 : ¬ (q < U64) := by omega
-  simp only [h2, if_false]
-  by_cases h1 : 3 * w < U64
-  · simp only [h1, if_true]
-    split <;> omega
-  · simp only [h1, if_false]
-    split <;> omega
-
 theorem ceil32_mono (a b : Nat) (h : a ≤ b) : ceil32 a ≤ ceil32 b := by
   unfold ceil32; omega
 
-/-- `resize_memory` on a genuine expansion below 2^37 bytes: charges exactly the Yellow Paper
+/-- `resize_memory` on a genuine expansion whose C_mem fits in 64 bits: charges exactly the Yellow Paper
 expansion cost, fails exactly when it exceeds the remaining gas, and leaves a whole number of words -/
-theorem resizeMemory_eq (cur rem new : Nat) (hcn : cur ≤ new) (hnew : new + 31 < 2^37) :
+theorem resizeMemory_eq (cur rem new : Nat) (hcn : cur ≤ new) (hnew : new + 31 < U64)
+    (hfit : memCost (ceil32 new) < U64) :
     resizeMemory cur rem new =
       if memExpansion cur new ≤ rem then (true, rem - memExpansion cur new, 32 * ceil32 new)
       else (false, rem, cur) := by
   have hU := U64_val
-  have hw1 : ceil32 new < 2^32 := by unfold ceil32; omega
   have hw0 : ceil32 cur ≤ ceil32 new := ceil32_mono _ _ hcn
   have hm := memCost_mono _ _ hw0
-  have hl1 := memCost_lt _ hw1
+  have hl1 := hfit
   unfold resizeMemory memoryGasForLen recordCost memExpansion
   rw [numWords_eq new (by omega), numWords_eq cur (by omega)]
   simp only []
-  rw [memoryGas_eq _ hw1, memoryGas_eq _ (by omega)]
+  rw [memoryGas_exact _ hfit, memoryGas_exact _ (by omega)]
   have hs : wsub (memCost (ceil32 new)) (memCost (ceil32 cur)) = memCost (ceil32 new) - memCost (ceil32 cur) := by
     unfold wsub
     generalize memCost (ceil32 new) = a at *
@@ -391,9 +372,10 @@ theorem resizeMemory_eq (cur rem new : Nat) (hcn : cur ≤ new) (hnew : new + 31
   · simp only [hc, if_true]; rw [Nat.mul_comm]
   · simp only [hc, if_false]; simp
 
-/-- the `resize_memory!` macro below 2^37 bytes: nothing happens when the range is already
+/-- the `resize_memory!` macro whenever C_mem of the new size fits in 64 bits: nothing happens when the range is already
 covered, otherwise as `resizeMemory_eq`, and `MemoryOOG` exactly when the cost exceeds the gas left -/
-theorem resizeMemoryMacro_eq (cur rem off len : Nat) (h : off + len + 31 < 2^37) :
+theorem resizeMemoryMacro_eq (cur rem off len : Nat) (h : off + len + 31 < U64)
+    (hfit : memCost (ceil32 (off + len)) < U64) :
     resizeMemoryMacro cur rem off len =
       if off + len ≤ cur then some (rem, cur)
       else if memExpansion cur (off + len) ≤ rem then
@@ -408,7 +390,7 @@ theorem resizeMemoryMacro_eq (cur rem off len : Nat) (h : off + len + 31 < 2^37)
     simp only [this, hc, if_true, if_false]
   · have hgt : off + len > cur := by omega
     simp only [hgt, hc, if_true, if_false]
-    rw [resizeMemory_eq cur rem (off + len) (by omega) h]
+    rw [resizeMemory_eq cur rem (off + len) (by omega) h hfit]
     by_cases he : memExpansion cur (off + len) ≤ rem
     · simp only [he, if_true]
     · simp only [he, if_false]; simp
